@@ -25,6 +25,7 @@ func init() {
 			{ID: "C09.4", Doc: "family gating", Floor: 4, Run: c09r4},
 			{ID: "C09.5", Doc: "'has answered us' is recorded only for matched responses", Floor: 5, Run: c06r1},
 			{ID: "C09.7", Doc: "the table walk starts at the target's bucket, moves one bucket nearer the root each round, and stops only when K are collected or the buckets are exhausted", Floor: 4, Run: c09r7},
+			{ID: "C09.8", Doc: "the node lists of a reply are built fresh for it (they are encoded after the handler has returned and released the lock)", Floor: 2, Run: c09r8},
 			{ID: "C09.6", Doc: "family selection: want list, else the requester's own family by To4", Floor: 4, Run: c09r6},
 		},
 	})
@@ -680,4 +681,100 @@ func blockReaches(from, to *ssa.BasicBlock) bool {
 		return false
 	}
 	return dfs(from)
+}
+
+// c09r8: the slices stored in Return.Nodes / Return.Nodes6 are freshly allocated for this reply:
+// followed backwards through calls into the module, phis, append chains and reslicing, every origin
+// is nil, make or a literal - never a field or a parameter. A shared scratch buffer would be
+// overwritten by the second list (and by the next query) before the reply goroutine encodes it.
+func c09r8(w *World, rr *RuleRun) {
+	for _, name := range []string{"Nodes", "Nodes6"} {
+		fv := w.P.Field("krpc", "Return", name)
+		n := 0
+		for _, st := range w.FieldWrites(w.P.LibFuncs, fv) {
+			s, ok := st.(*ssa.Store)
+			if !ok || !w.P.IsLib(st.Parent()) {
+				continue
+			}
+			if strings.HasSuffix(st.Parent().Pkg.Pkg.Path(), "/krpc") {
+				continue // decoders fill the field from wire bytes
+			}
+			n++
+			bad := w.staleSliceOrigins(s.Val, 0, map[ssa.Value]bool{})
+			rr.At(w, st, "Return."+name+" is a freshly built slice", len(bad) == 0, strings.Join(bad, "; "))
+		}
+		if n == 0 {
+			rr.Oblige("(library)", "Return."+name+" is a freshly built slice", "-", false, "no store found")
+		}
+	}
+}
+
+// staleSliceOrigins lists the origins of a slice value that are not fresh allocations.
+func (w *World) staleSliceOrigins(v ssa.Value, depth int, seen map[ssa.Value]bool) []string {
+	if seen[v] {
+		return nil
+	}
+	seen[v] = true
+	if depth > 8 {
+		return []string{"origin too deep at " + trunc(w.TS.Of(v).String(), 60)}
+	}
+	switch x := v.(type) {
+	case *ssa.Const:
+		return nil
+	case *ssa.MakeSlice:
+		return nil
+	case *ssa.Phi:
+		var out []string
+		for _, e := range x.Edges {
+			out = append(out, w.staleSliceOrigins(e, depth+1, seen)...)
+		}
+		return out
+	case *ssa.Slice:
+		if _, isAlloc := x.X.(*ssa.Alloc); isAlloc {
+			return nil // slice of a local array (varargs, new [n]T)
+		}
+		return w.staleSliceOrigins(x.X, depth+1, seen)
+	case *ssa.ChangeType:
+		return w.staleSliceOrigins(x.X, depth+1, seen)
+	case *ssa.Convert:
+		return w.staleSliceOrigins(x.X, depth+1, seen)
+	case *ssa.Extract:
+		return w.staleSliceOrigins(x.Tuple, depth+1, seen)
+	case *ssa.UnOp:
+		if al, ok := x.X.(*ssa.Alloc); ok && al.Referrers() != nil {
+			var out []string
+			for _, r := range *al.Referrers() {
+				if st, ok := r.(*ssa.Store); ok && st.Addr == al {
+					out = append(out, w.staleSliceOrigins(st.Val, depth+1, seen)...)
+				}
+			}
+			return out
+		}
+		return []string{"loaded from " + trunc(w.TS.Of(x.X).String(), 80)}
+	case *ssa.Call:
+		c := x.Common()
+		if b, ok := c.Value.(*ssa.Builtin); ok && b.Name() == "append" {
+			return w.staleSliceOrigins(c.Args[0], depth+1, seen)
+		}
+		var out []string
+		found := false
+		for _, e := range w.CG.SiteOut[x] {
+			if !w.P.IsLib(e.Callee) || len(e.Callee.Blocks) == 0 {
+				continue
+			}
+			found = true
+			for _, b := range e.Callee.Blocks {
+				for _, ins := range b.Instrs {
+					if r, ok := ins.(*ssa.Return); ok && len(r.Results) > 0 {
+						out = append(out, w.staleSliceOrigins(r.Results[0], depth+1, seen)...)
+					}
+				}
+			}
+		}
+		if !found {
+			return []string{"result of " + trunc(w.TS.Of(v).String(), 80)}
+		}
+		return out
+	}
+	return []string{trunc(w.TS.Of(v).String(), 80)}
 }
